@@ -159,9 +159,10 @@ KWPOOL = ["blocks", "typeset", "dot", "selector", "wherever", "endpoint", "doi",
 
 class Gen:
     def __init__(self, rng, nmod=None, tight=False, dollar=False, types=True, includes=True, constructs=True, generics=True, split_files=True,
-                 style=None, nested_uses=True):
+                 style=None, nested_uses=True, labeldo=False):
         self.rng = rng
-        self.o = dict(tight=tight, dollar=dollar, types=types, includes=includes, constructs=constructs, generics=generics)
+        self.o = dict(tight=tight, dollar=dollar, types=types, includes=includes, constructs=constructs, generics=generics, labeldo=labeldo)
+        self.lblno = 0
         self.nmod = nmod or rng.randint(2, 4)
         self.mods = []
         self.all_types = []
@@ -487,6 +488,16 @@ class Gen:
             return None
         kind = rng.choice(["do", "dowhile", "nameddo", "if", "ifelse", "select", "block", "associate", "where", "oneline-if", "decoy"])
         body = [x for x in (self.gen_stmt(s, depth + 1, extra) for _ in range(rng.randint(1, 3))) if x]
+        if self.o["labeldo"] and kind == "do" and ints and self.rng2.random() < 0.6:
+            # labelled DO closed by a labelled CONTINUE; in half of them two nested loops share the terminal label (opt-in: C04 only)
+            self.lblno += 10
+            lv = Ent(self.fresh("ix"), "var", s, loopvar=True)
+            s.ents.append(lv)
+            lv2 = None
+            if self.rng2.random() < 0.5:
+                lv2 = Ent(self.fresh("ix"), "var", s, loopvar=True)
+                s.ents.append(lv2)
+            return ("labeldo", (lv.name, lv), body, [], self.lblno, lv2)
         if kind == "decoy":
             if not ints:
                 return None
@@ -753,6 +764,15 @@ class Renderer:
                 self.L([p2, (be.name, be, "ref"), eq, "1"], "stmt", s)
                 self.stmts(s, body, ind + self.st.indent)
                 self.L([pad, self.st.end("block", allow_bare=False)], "close", s)
+            elif kind == "labeldo":
+                ctl, body, n, lv2 = x[1], x[2], x[4], x[5]
+                i2 = ind + self.st.indent
+                self.L([pad, k("do") + f" {n} ", self.ref(ctl), eq, "1, 3"], "open", s)
+                if lv2 is not None:
+                    self.L([" " * i2, k("do") + f" {n} ", self.ref((lv2.name, lv2)), eq, "1, 2"], "open", s)
+                    i2 += self.st.indent
+                self.stmts(s, body, i2)
+                self.L([pad, f"{n} " + k("continue")], "close", s)
             else:
                 ctl, body, body2, lbl = x[1], x[2], x[3], x[4]
                 i2 = ind + self.st.indent
